@@ -550,6 +550,9 @@ func (w *World) Body(r *Reg, ft reflect.Type) func(args []reflect.Value) []refle
 				w.mu.Unlock()
 				var tmp godi.Scope
 				if r.NestedInChild {
+					w.mu.Lock()
+					w.via[tid] = "child"
+					w.mu.Unlock()
 					if cs, err := sc.CreateScope(context.Background()); err == nil {
 						tmp = cs
 						sc = cs
